@@ -1,7 +1,7 @@
 (* Case checker for C20: evaluated by vm_compute on the cases the Go driver observed.
    kind 1 = the model and the implementation differ (correspondence),
    kind 2 = the implementation's own output violates the specification (oracle). *)
-From TV Require Export Lib.Bytes Model.Unicode Model.Lang Spec.Unicode.
+From TV Require Export Lib.Bytes Model.Unicode Model.Lang Spec.Unicode Model.UnicodeShape.
 
 Definition dval := (Z * (bool * bool * bool * bool))%type.   (* Direction byte, (IsVertical, Progression, HasVerticalOrientation, IsSideways) *)
 
@@ -10,11 +10,12 @@ Inductive case :=
    (class ids, -1 = nil), LookupMirrorChar(r), first result of LookupMirrorChar on that result, Decompose(r),
    Compose of its parts, decomposeHangul(r), LookupScript(r) *)
 | CCp (r : Z) (gc cc lb gb wb : Z) (mir : Z * bool) (mir2 : Z) (dec : Z * Z * bool) (comp : Z * bool)
-      (hdec : Z * Z * bool) (script : Z)
+      (hdec : Z * Z * bool) (script : Z) (ccparts : Z * Z)   (* LookupCombiningClass of the two parts of Decompose(r) *)
 (* one pair: Compose(a,b), composeHangul(a,b), Decompose of the composed rune *)
 | CPair (a b : Z) (comp : Z * bool) (hcomp : Z * bool) (dec : Z * Z * bool)
-(* one Direction value: itself observed, Axis, Harfbuzz, SwitchAxis, SetProgression(false/true), SetSideways(false/true) *)
-| CDir (d : dval) (axis : bool) (hb : Z) (sw sp0 sp1 ss0 ss1 : dval)
+(* one Direction value: itself observed, Axis, Harfbuzz, SwitchAxis, SetProgression(false/true), SetSideways(false/true),
+   SwitchAxis applied twice; every value is observed through IsVertical, Progression, HasVerticalOrientation, IsSideways *)
+| CDir (d : dval) (axis : bool) (hb : Z) (sw sp0 sp1 ss0 ss1 sw2 : dval)
 (* one string: NewLanguage(s), NewLanguage of that, Primary, binarySearchLang on both table parts, NewLangID,
    Language() of the id, NewLangID of that tag *)
 | CLang (s l l2 prim : list Z) (bs1 bs2 : Z * bool) (id : Z * bool) (tag : list Z) (id2 : Z * bool)
@@ -35,26 +36,31 @@ Definition dobs_of (x : dval) : dobs := let '(_, (a1, a2, a3, a4)) := x in mkDob
 
 Definition corr_ok (c : case) : bool :=
   match c with
-  | CCp r gc cc lb gb wb mir mir2 dec comp hdec script =>
-    res_is Z.eqb (do x <- lookup_type r; Ok (opt_nat_Z x)) gc
+  | CCp r gc cc lb gb wb mir mir2 dec comp hdec script ccparts =>
+    res_is Z.eqb (lookup_combining_class (fst (fst dec))) (fst ccparts)
+    && res_is Z.eqb (lookup_combining_class (snd (fst dec))) (snd ccparts)
+    && res_is Z.eqb (do x <- lookup_type r; Ok (opt_nat_Z x)) gc
     && res_is Z.eqb (lookup_combining_class r) cc
     && res_is Z.eqb (do x <- lookup_line_break r; Ok (Z.of_nat x)) lb
     && res_is Z.eqb (do x <- lookup_grapheme_break r; Ok (opt_nat_Z x)) gb
     && res_is Z.eqb (do x <- lookup_word_break r; Ok (opt_nat_Z x)) wb
     && zb_eqb (lookup_mirror r) mir
     && (fst (lookup_mirror (fst mir)) =? mir2)
-    && zzb_eqb (decompose r) dec
-    && zb_eqb (compose (fst (fst dec)) (snd (fst dec))) comp
-    && zzb_eqb (decompose_hangul r) hdec
+    && zzb_eqb (decompose r) dec && zzb_eqb (decompose_code r) dec
+    && zb_eqb (compose (fst (fst dec)) (snd (fst dec))) comp && zb_eqb (compose_code (fst (fst dec)) (snd (fst dec))) comp
+    && zzb_eqb (decompose_hangul r) hdec && zzb_eqb (decompose_hangul_src r) hdec
     && res_is Z.eqb (lookup_script r) script
   | CPair a b comp hcomp dec =>
     zb_eqb (compose a b) comp && zb_eqb (compose_hangul a b) hcomp && zzb_eqb (decompose (fst comp)) dec
-  | CDir d axis hb sw sp0 sp1 ss0 ss1 =>
+    (* the functions translated from the source on this run *)
+    && zb_eqb (compose_code a b) comp && zb_eqb (compose_hangul_src a b) hcomp && zzb_eqb (decompose_code (fst comp)) dec
+  | CDir d axis hb sw sp0 sp1 ss0 ss1 sw2 =>
     let x := fst d in
     dval_eqb (dval_of x) d && Bool.eqb (dir_axis x) axis && (dir_harfbuzz x =? hb)
     && dval_eqb (dval_of (dir_switch_axis x)) sw
     && dval_eqb (dval_of (dir_set_progression x false)) sp0 && dval_eqb (dval_of (dir_set_progression x true)) sp1
     && dval_eqb (dval_of (dir_set_sideways x false)) ss0 && dval_eqb (dval_of (dir_set_sideways x true)) ss1
+    && dval_eqb (dval_of (dir_switch_axis (dir_switch_axis x))) sw2
   | CLang s l l2 prim bs1 bs2 id tag id2 =>
     list_Z_eqb (new_language s) l && list_Z_eqb (new_language l) l2 && list_Z_eqb (primary l) prim
     && res_is zb_eqb (binary_search_lang l (zfirstn knownLangsCount (lang_tags languagesInfos))) bs1
@@ -77,8 +83,11 @@ Definition class_ok (order : list (nat * rtab)) (r : Z) (dflt : Z) (got : Z) : b
 
 Definition prop_ok (c : case) : bool :=
   match c with
-  | CCp r gc cc lb gb wb mir mir2 dec comp hdec script =>
-    class_ok categories_order r (-1) gc
+  | CCp r gc cc lb gb wb mir mir2 dec comp hdec script ccparts =>
+    (* canonical order of a two-part decomposition; the first part of a recomposable code point is a starter *)
+    (negb (snd dec) || (snd (fst dec) =? 0)
+     || (negb ((snd ccparts <? fst ccparts) && (0 <? snd ccparts)) && (excluded r || (fst ccparts =? 0))))
+    && class_ok categories_order r (-1) gc
     && class_ok combiningClasses_order r 0 cc
     && class_ok lineBreaks_order r (Z.of_nat lineBreaks_default) lb
     && class_ok graphemeBreaks_order r (-1) gb
@@ -87,9 +96,13 @@ Definition prop_ok (c : case) : bool :=
     && dec_comp_ok r dec comp
     && (script =? script_scan ScriptRanges r)
   | CPair a b comp hcomp dec => comp_dec_ok a b comp dec
-  | CDir d axis hb sw sp0 sp1 ss0 ss1 =>
+  | CDir d axis hb sw sp0 sp1 ss0 ss1 sw2 =>
     let o := dobs_of d in
     Bool.eqb axis (o_vertical o)
+    (* every value reached is coherent: sideways only on the vertical axis; switching the axis twice is the identity *)
+    && forallb (fun v => dobs_coherent (dobs_of v)) [d; sw; sp0; sp1; ss0; ss1; sw2]
+    && dval_eqb sw2 d
+    && (hb =? 4 + (if o_progression o then 1 else 0) + (if o_vertical o then 2 else 0))
     && switch_axis_ok o (dobs_of sw)
     && set_progression_ok o (dobs_of sp0) false && set_progression_ok o (dobs_of sp1) true
     && set_sideways_ok o (dobs_of ss0) false && set_sideways_ok o (dobs_of ss1) true
